@@ -32,7 +32,8 @@ EXPLANATION = (
     "calls setup_reward_sharing, then update_agents; R10.4 for each reward component with a `sticky` option: no path "
     "through the sticky edge stores the remembered value (except the reset when the observed object is absent from "
     "the state) and it returns that value, every path through the not-sticky edge ends with the remembered value set "
-    "to the constant 0, and a qualifying event updates the value without consulting the flag. NOT decided: the "
+    "to the constant 0, and a qualifying event updates the value without consulting the flag; a component that interprets the action's "
+    "response does so only behind the test that the action was its own request. NOT decided: the "
     "arithmetic inside individual components, floating point rounding of the sum, exhaustive enumeration of sharing "
     "graphs (the DFS functions are decided structurally, not by running them), behaviour when a shared-reward names an "
     "agent that does not exist."
@@ -1039,6 +1040,7 @@ def r10_4(ctx: Ctx) -> None:
                 "remembered value = constant 0; a qualifying event updates the value without consulting the flag")
     classes = sticky_classes(ctx)
     ctx.floor(R, "reward components with a `sticky` option", len(classes), 3)
+    n_resp = [0]
     for c in classes:
         if "calculate" not in c.methods:
             raise AnalysisError(f"R10.4: {c.short} has a sticky option but no own calculate()")
@@ -1109,9 +1111,44 @@ def r10_4(ctx: Ctx) -> None:
         ctx.record(R, ctx.key(fn, "a qualifying event updates the value whatever the flag"), fn.loc(), bool(ev_stores),
                    f"{len(ev_stores)} store(s) of self.reward are reachable without passing the sticky test" if ev_stores else
                    "every update of the value is behind the sticky test")
+        # (D) the response of the last action is interpreted only when that action was this component's own request
+        def _event_true(e: Edge) -> bool:
+            if not (e.label and e.label[0] == "cond"):
+                return False
+            ex, pol = ld.expand(e.label[1]), e.label[2]
+            neg = False
+            while isinstance(ex, ast.UnaryOp) and isinstance(ex.op, ast.Not):
+                ex, neg = ex.operand, not neg
+            if isinstance(ex, ast.Compare) and len(ex.ops) == 1 and isinstance(ex.ops[0], (ast.Eq, ast.NotEq)) \
+                    and any(isinstance(x, ast.Attribute) and x.attr == "request" for x in ast.walk(ex)) \
+                    and any(isinstance(x, ast.List) for x in (ex.left, ex.comparators[0])):
+                if isinstance(ex.ops[0], ast.NotEq):
+                    neg = not neg
+                return pol is (not neg)
+            return False
+
+        resp_nodes = [n for n in g.nodes if n.ast is not None and n.kind in ("stmt", "cond") and any(
+            isinstance(x, ast.Attribute) and x.attr == "response" and isinstance(x.value, ast.Name) for x in
+            (ast.walk(n.ast) if n.kind == "cond" or not isinstance(n.ast, (ast.If, ast.For, ast.While, ast.FunctionDef)) else []))]
+        if resp_nodes:
+            n_resp[0] += 1
+            if not any(_event_true(e) for e in g.edges()):
+                raise AnalysisError(f"R10.4: {fn.short} reads the action's response but no test of the action's request was recognised")
+            witd = None
+            for rn in resp_nodes:
+                p = g.path_avoiding([rn], _event_true)
+                if p is not None:
+                    witd = [f"`{unparse(rn.ast)[:70]}` at L{rn.lineno} is reached without the request test:"] + path_text(p)
+                    break
+            ctx.record(R, ctx.key(fn, "the response is read only for the component's own request"), fn.loc(resp_nodes[0].ast), witd is None,
+                       "every use of last_action_response.response is behind `last_action_response.request == [... own request ...]`"
+                       if witd is None else
+                       "the outcome of some other action is taken for this component's event: its value changes (or stops being 0) "
+                       "on a step on which the agent made no qualifying request", witd)
         fld = c.fields.get("reward")
         ctx.record(R, f"{c.path}::{c.short}::remembered value starts at 0", f"{c.path}:{getattr(fld.node, 'lineno', 0) if fld else 0}",
                    fld is not None and _is_zero(fld.default), f"reward default = {unparse(fld.default) if fld else 'missing'}")
+    ctx.floor(R, "components that interpret the action's response", n_resp[0], 2)
     # the remembered value is private to calculate()
     n = 0
     base = ix.cls("AbstractReward")
